@@ -470,16 +470,15 @@ where
     /// event exists in the future event set.
     #[allow(clippy::should_implement_trait)]
     fn dispatch_event(&mut self) -> bool {
-        if self.future_event_set.is_empty() {
+        let Some(time) = self.future_event_set.peek_time() else {
+            return true;
+        };
+
+        if self.limit.applies(self.itr + 1, time) {
             return true;
         }
 
         let (event, time) = self.future_event_set.fetch_next();
-
-        if self.limit.applies(self.itr + 1, time) {
-            self.future_event_set.add(time, event);
-            return true;
-        }
 
         self.itr += 1;
 
